@@ -258,6 +258,37 @@ def run(ck, prog, tier, load):
         ck.ob("C02-c.bodiless-status-te", str(s_code), not bad, me, bad[0] if bad else None,
               "assuming the response status is %d (%s), no body-carrying TransferEncoding is constructed (else body bytes follow a head that declares no body)" % (s_code, why))
     # ---- (d) a short or failed body never looks complete -----------------------------
+    # the transfer encoder itself: a sized body is cut to what is still owed and the count is kept;
+    # the chunked terminator is written once
+    te = prog.one(r"^actix_http::h1::encoder::TransferEncoding::encode$")
+    apps = [(bb, t, te.op_expr(t["args"][1])) for bb, t in te.calls(r"extend_from_slice$")]
+    is_kind = lambda c, name: c[0] == "discr" and e_has_field(c, r"\.kind$")
+    def arm(bb, name):
+        return any(is_kind(c, name) and lab == name for c, lab, a in te.guards(bb))
+    len_apps = [(bb, t, e) for bb, t, e in apps if arm(bb, "Length")]
+    ck.anchor("C02-d", len(len_apps), 1, "append in the Length arm of TransferEncoding::encode")
+    rem_writes = [(bb, st, te.rv_expr(st["rv"], 8)) for bb, i, st in te.assigns() if len(st["p"]) > 1 and e_bins(te.rv_expr(st["rv"], 8), ("Sub", "SubWithOverflow"))]
+    for bb, t, e in len_apps:
+        mins = e_calls(e, r"core::cmp::min$")
+        cut = bool(mins) and any(isinstance(p_, str) and "TransferEncodingKind::Length" in p_ for m_ in mins for x in walk(m_) if x[0] == "place" for p_ in x[2]) and bool(e_calls(e, r"slice::len$|len$"))
+        ck.ob("C02-d.sized-body-cut", "TransferEncoding::encode", cut, te, bb, "a sized body is written as msg[..min(remaining, msg.len())]: %s" % short(e, 5))
+        amt = canon(mins[0], 6) if mins else None
+        ok_dec = False
+        through = []
+        for b2, st, rv in rem_writes:
+            for x in e_bins(rv, ("Sub", "SubWithOverflow")):
+                if amt is not None and canon(_unwrap_cast(x[3]), 6) == amt and any(isinstance(p_, str) and "TransferEncodingKind::Length" in p_ for y in walk(x[2]) if y[0] == "place" for p_ in y[2]):
+                    through.append(b2)
+        if through:
+            ok_dec = te.must_pass_after(bb, te.returns(), through)[0]
+        ck.ob("C02-d.sized-body-accounted", "TransferEncoding::encode", ok_dec, te, bb, "after the append `remaining` is decreased by exactly the number of bytes written, on every path to a return")
+    term = [(bb, t, e) for bb, t, e in apps if any(x[0] == "const" and x[3] == "0\r\n\r\n" for x in walk(e))]
+    ck.anchor("C02-d", len(term), 1, "append of the chunked terminator in TransferEncoding::encode")
+    for bb, t, e in term:
+        not_yet = any(c[0] == "place" and any(isinstance(p_, str) and "TransferEncodingKind::Chunked" in p_ for p_ in c[2]) and lab is False for c, lab, a in te.guards(bb))
+        sets = [b2 for b2, i, st in te.assigns() if len(st["p"]) > 1 and st["rv"]["k"] == "use" and te.rv_expr(st["rv"], 3)[:3] == ("const", None, 1)]
+        ok_t = not_yet and bool(sets) and te.must_pass_after(bb, te.returns(), sets)[0] if bb not in sets else not_yet
+        ck.ob("C02-d.terminator-once", "TransferEncoding::encode", ok_t, te, bb, "the last-chunk marker is written only while the end flag is clear, and the flag is set on every path from there (a second marker would be read as the start of the next response)")
     eof = prog.one(r"^actix_http::h1::encoder::TransferEncoding::encode_eof$")
     errs = ret_sites(eof, lambda e: is_agg(e, r"Result::Err$"))
     okd = False
@@ -317,6 +348,15 @@ def run(ck, prog, tier, load):
     fp = [bb for bb, t in up.calls(r"Framed.*::from_parts$")]
     ok = bool(takes) and bool(fw) and bool(fp) and all(e_calls(up.rv_expr(s["rv"], 4), r"core::mem::take$") and e_has_field(up.rv_expr(s["rv"], 4), WB) for bb, s in fw) and all(any(up.dominates(b1, f) for b1, s in fw) for f in fp)
     ck.ob("C02-e.upgrade-hands-over-write-buf", "upgrade", ok, up, fp[0] if fp else None, "on upgrade the not-yet-flushed response bytes (write_buf) are moved into the Framed handed to the upgrade service, not dropped")
+    # pipelined requests are answered in the order they were decoded: the queue is used strictly first-in first-out
+    qm = method_calls_on_field(prog, r"\.actix_http::h1::dispatcher::(InnerDispatcher|__InnerDispatcherProjection|_::__InnerDispatcherProjection|[A-Za-z_:]*Projection)\.messages$|InnerDispatcher[A-Za-z_]*\.messages$", ["actix_http"])
+    ck.anchor("C02-e", len([1 for q in qm if q[3] == "push_back"]), 1, "messages.push_back in the h1 dispatcher")
+    ck.anchor("C02-e", len([1 for q in qm if q[3] == "pop_front"]), 1, "messages.pop_front in the h1 dispatcher")
+    FIFO_OK = {"push_back", "pop_front", "len", "is_empty", "clear", "front", "capacity", "reserve", "new", "with_capacity", "default"}
+    for b_, bb, t, m in qm:
+        if m in ("len", "is_empty"):
+            continue
+        ck.ob("C02-e.request-queue-fifo", "%s|%s" % (b_.npath.split("::")[-1], m), m in FIFO_OK, b_, bb, "the queue of decoded-but-not-yet-dispatched requests is only ever appended at the back and taken from the front (`%s`)" % m)
     # 100 Continue
     n_c = 0
     for b in prog.in_file("actix-http/src/h1/dispatcher.rs"):
@@ -333,3 +373,9 @@ def run(ck, prog, tier, load):
 
 
 import re  # noqa: E402
+
+
+def _unwrap_cast(e):
+    while isinstance(e, tuple) and e and e[0] == "cast":
+        e = e[-1] if isinstance(e[-1], tuple) else e[2]
+    return e
